@@ -157,6 +157,12 @@ where
             return Err(());
         }
 
+        if probs.iter().any(|probability| !(*probability >= F::zero())) {
+            // Negative (or NaN) entries would make the lazily evaluated cumulative
+            // distribution non-monotonic (wrapped or zero fixed-point probabilities).
+            return Err(());
+        }
+
         let scale = AsPrimitive::<F>::as_(remaining_free_weight.as_()) / normalization;
 
         Ok(Self {
